@@ -354,9 +354,61 @@ def stroke_scenes(ctx):
                          sr.model[i][k].raw[:200] if k < len(sr.model[i]) else "-"))
 
 
+def concat_check(ctx):
+    """"restarted per subpath": the dashes of a path with several subpaths are the dashes of each subpath on its own, one
+    after the other - evaluated on the crate's own dash_path (whole path vs its subpaths, op lists compared exactly)."""
+    rng = ctx.rng
+    n = 400 if ctx.tier == "quick" else 8000
+    lines, groups = [], []
+    for i in range(n):
+        subs = []
+        for _ in range(rng.choice([2, 2, 3])):
+            ops = simple_subpath(rng) if rng.random() < 0.6 else pc.polyline_ops(rng, nsub=1)
+            ops = [o for o in ops]
+            if not ops or not ops[0].startswith("M "):
+                ops = ["M " + scene.fpt(1.0, 1.0)] + ops
+            # keep exactly one subpath per group: cut at a second MoveTo, drop ops after a Close
+            cut = next((j for j in range(1, len(ops)) if ops[j].startswith("M ")), len(ops))
+            ops = ops[:cut]
+            if "Z" in ops:
+                ops = ops[:ops.index("Z") + 1]
+            subs.append(ops)
+        dash = pos_dash_tokens(rng) if rng.random() < 0.7 else "2 %d %d %d" % (FB(rng.choice([1000.0, 300.0, 50.0])), FB(10.0), FB(rng.choice([0.0, 5.0, -3.0])))
+        base = len(lines)
+        lines.append("pdash %d %s %s" % (600000 + base, dash, scene.path_tokens([o for sp in subs for o in sp], 0)))
+        for sp in subs:
+            lines.append("pdash %d %s %s" % (600000 + len(lines), dash, scene.path_tokens(sp, 0)))
+        groups.append((base, len(subs)))
+    try:
+        aug, impl, model = pc.run(lines)
+    except RuntimeError as e:
+        ctx.violation("impl-died", str(e), "the implementation aborted on a multi-subpath dash case")
+        return
+    def ops_of(line):
+        t = line.split()
+        if len(t) < 5 or t[1] != "ok":
+            return None
+        return t[5:]
+    bad = None
+    for base, k in groups:
+        whole = ops_of(impl[base])
+        parts = [ops_of(impl[base + 1 + j]) for j in range(k)]
+        if whole is None or any(p is None for p in parts):
+            continue
+        cat = [x for p in parts for x in p]
+        if whole != cat and (bad is None or len(lines[base]) < len(lines[bad])):
+            bad = base
+    ctx.cov["multi_subpath_dash_cases"] = len(groups)
+    if bad is not None:
+        ctx.violation("concat-%s" % lines[bad].split()[1], lines[bad],
+                      "the dashes of this path are not the dashes of its subpaths one after the other (the pattern must restart "
+                      "at every subpath and a subpath's dashes must not depend on the previous subpath)\n# whole: %s" % impl[bad][:300])
+
+
 def run(ctx):
     if core.prepare(ctx):
         stroke_scenes(ctx)
+        concat_check(ctx)
     return _path.run_property(ctx, make_lines, RULE, oracle, ASSUME, nontrivial, 4000, 80000,
                               "PathOps.dash_path vs raqote::dash::dash_path")
 
